@@ -294,4 +294,135 @@ theorem mem_take_iff_idxOf_lt {α : Type} [DecidableEq α] : ∀ (l : List α) (
         · omega
       · intro h; right; omega
 
+/-! ### exact L1 norm on a unit basis -/
+
+theorem getD_vadd (a b : List Rat) (j : Nat) (ha : j < a.length) (hb : j < b.length) :
+    (vadd a b).getD j 0 = a.getD j 0 + b.getD j 0 := by
+  simp [vadd, List.getD_eq_getElem?_getD, ha, hb]
+
+theorem getD_zeroVec (d j : Nat) : (zeroVec d).getD j 0 = 0 := by
+  simp [zeroVec, List.getD_eq_getElem?_getD, List.getElem?_replicate]
+  split <;> rfl
+
+/-- a column sum of rows with non-negative entries is at least each row's entry -/
+theorem colSums_ge_entry (d j : Nat) (hj : j < d) : ∀ (rows : List (List Rat)),
+    (∀ r ∈ rows, r.length = d) → (∀ r ∈ rows, ∀ x ∈ r, 0 ≤ x) →
+    (0 ≤ (colSums d rows).getD j 0) ∧ ∀ r ∈ rows, r.getD j 0 ≤ (colSums d rows).getD j 0
+  | [], _, _ => by
+    refine ⟨?_, by simp⟩
+    have := getD_zeroVec d j
+    simp only [colSums, List.foldr_nil]
+    rw [this]
+  | r :: rows, hl, hn => by
+    have ih := colSums_ge_entry d j hj rows (fun x hx => hl x (by simp [hx])) (fun x hx => hn x (by simp [hx]))
+    have hlen := colSums_length d rows (fun x hx => hl x (by simp [hx]))
+    have hr : r.length = d := hl r (by simp)
+    have e : (colSums d (r :: rows)).getD j 0 = r.getD j 0 + (colSums d rows).getD j 0 := by
+      simp only [colSums, List.foldr_cons]
+      simp only [colSums] at hlen
+      exact getD_vadd _ _ j (by omega) (by omega)
+    have hrj : 0 ≤ r.getD j 0 := by
+      rw [List.getD_eq_getElem?_getD, List.getElem?_eq_getElem (by omega)]
+      exact hn r (by simp) _ (List.getElem_mem _)
+    rw [e]
+    refine ⟨by linarith [ih.1], ?_⟩
+    intro x hx
+    rcases List.mem_cons.mp hx with rfl | hx
+    · linarith [ih.1]
+    · linarith [ih.2 x hx]
+
+theorem getD_unitVec_self (d j : Nat) (hj : j < d) : (unitVec d j).getD j 0 = 1 := by
+  simp [unitVec, List.getD_eq_getElem?_getD, hj]
+
+/-- `dot c P = P.sum` when every coefficient is 1 wherever `P` is non-zero -/
+theorem dot_eq_sum : ∀ (c P : List Rat), c.length = P.length →
+    (∀ j (h : j < P.length), c.getD j 0 = 1 ∨ P[j] = 0) → dot c P = P.sum
+  | [], [], _, _ => by simp
+  | [], _ :: _, h, _ => by simp at h
+  | _ :: _, [], h, _ => by simp at h
+  | x :: c, y :: P, hl, h => by
+    rw [dot_cons, List.sum_cons]
+    have ih := dot_eq_sum c P (by simpa using hl) (fun j hj => by
+      have := h (j + 1) (by simp; omega)
+      simpa using this)
+    rw [ih]
+    have h0 := h 0 (by simp)
+    simp at h0
+    rcases h0 with h0 | h0 <;> simp [h0]
+
+theorem lambdaOf_sum_dots {d : Nat} {rows : List (List Rat × List Rat)} (hb : basisOK d rows = true)
+    (coefs : List Rat) (hc : coefs.length = d) :
+    (lambdaOf rows coefs).sum =
+      dot (colSums d (rows.map (·.1))) (coefs.map posPart) + dot (colSums d (rows.map (·.2))) (coefs.map negPart) := by
+  obtain ⟨hr, _, _⟩ := basisOK_spec hb
+  have e : (lambdaOf rows coefs).sum =
+      ((rows.map (·.1)).map (fun r => dot r (coefs.map posPart))).sum +
+      ((rows.map (·.2)).map (fun r => dot r (coefs.map negPart))).sum := by
+    simp only [lambdaOf, List.map_map]
+    rw [← List.sum_map_add]; rfl
+  rw [e, sum_dot_rows d _ (by simpa using hc), sum_dot_rows d _ (by simpa using hc)]
+  · intro r hr'; obtain ⟨r0, hr0, rfl⟩ := List.mem_map.mp hr'; exact (hr r0 hr0).2.1
+  · intro r hr'; obtain ⟨r0, hr0, rfl⟩ := List.mem_map.mp hr'; exact (hr r0 hr0).1
+
+/-- With a unit basis whose columns sum to at most 1 the L1 norm of the multiplier vector is EXACTLY the
+    scaled L1 norm of the lattice point. -/
+theorem lambdaOf_sum_eq {na : List Bool} {rows : List (List Rat × List Rat)}
+    (hu : unitBasis na rows = true) (hb : basisOK na.length rows = true)
+    (s : Rat) (hs : 0 < s) (n : Nat) (limit : Rat) (hsn : limit / (n : Rat) = s)
+    (v : List Int) (hv : SignOK na v) :
+    (lambdaOf rows (scaleCoefs limit n v)).sum = (l1 v : Rat) * s := by
+  have hvl := hv.length_eq
+  have hcl : (scaleCoefs limit n v).length = na.length := by simp [scaleCoefs_def, hvl]
+  obtain ⟨hr, hp1, hn1⟩ := basisOK_spec hb
+  rw [lambdaOf_sum_dots hb _ hcl]
+  have hlenP : ∀ (sel : List Rat × List Rat → List Rat), (∀ r ∈ rows, (sel r).length = na.length) →
+      (colSums na.length (rows.map sel)).length = na.length := by
+    intro sel h
+    exact colSums_length _ _ (by intro r hr'; obtain ⟨r0, hr0, rfl⟩ := List.mem_map.mp hr'; exact h r0 hr0)
+  have hone : ∀ (sel : List Rat × List Rat → List Rat) (j : Nat), j < na.length →
+      (∀ r ∈ rows, (sel r).length = na.length) → (∀ r ∈ rows, ∀ x ∈ sel r, 0 ≤ x) →
+      (∀ x ∈ colSums na.length (rows.map sel), x ≤ 1) →
+      (∃ r ∈ rows, sel r = unitVec na.length j) → (colSums na.length (rows.map sel)).getD j 0 = 1 := by
+    intro sel j hj hl hnn hle ⟨r, hr', hru⟩
+    have hge := (colSums_ge_entry na.length j hj (rows.map sel)
+      (by intro x hx; obtain ⟨r0, hr0, rfl⟩ := List.mem_map.mp hx; exact hl r0 hr0)
+      (by intro x hx; obtain ⟨r0, hr0, rfl⟩ := List.mem_map.mp hx; exact hnn r0 hr0)).2 (sel r)
+      (List.mem_map.mpr ⟨r, hr', rfl⟩)
+    rw [hru, getD_unitVec_self _ _ hj] at hge
+    have hlen := hlenP sel hl
+    have hmem : (colSums na.length (rows.map sel)).getD j 0 ∈ colSums na.length (rows.map sel) := by
+      rw [List.getD_eq_getElem?_getD, List.getElem?_eq_getElem (by omega)]
+      exact List.getElem_mem _
+    exact le_antisymm (hle _ hmem) hge
+  have e1 : dot (colSums na.length (rows.map (·.1))) ((scaleCoefs limit n v).map posPart) =
+      ((scaleCoefs limit n v).map posPart).sum := by
+    apply dot_eq_sum
+    · rw [hlenP (·.1) (fun r hr' => (hr r hr').1)]; simp [hcl]
+    · intro j hj
+      left
+      have hjd : j < na.length := by simpa [hcl] using hj
+      exact hone (·.1) j hjd (fun r hr' => (hr r hr').1) (fun r hr' => (hr r hr').2.2.1) hp1
+        (by obtain ⟨⟨r, hr', h1, _⟩, _⟩ := unitBasis_spec hu j hjd; exact ⟨r, hr', h1⟩)
+  have e2 : dot (colSums na.length (rows.map (·.2))) ((scaleCoefs limit n v).map negPart) =
+      ((scaleCoefs limit n v).map negPart).sum := by
+    apply dot_eq_sum
+    · rw [hlenP (·.2) (fun r hr' => (hr r hr').2.1)]; simp [hcl]
+    · intro j hj
+      have hjd : j < na.length := by simpa [hcl] using hj
+      cases hbj : na.getD j false with
+      | true =>
+        left
+        exact hone (·.2) j hjd (fun r hr' => (hr r hr').2.1) (fun r hr' => (hr r hr').2.2.2) hn1
+          (by obtain ⟨_, hneg⟩ := unitBasis_spec hu j hjd
+              obtain ⟨r, hr', h2, _⟩ := hneg hbj; exact ⟨r, hr', h2⟩)
+      | false =>
+        right
+        have hjv : j < v.length := by omega
+        have h0 := hv.nonneg_of j hjv hbj
+        have := negPart_of_nonneg s hs _ h0
+        subst hsn
+        simpa [scaleCoefs_def] using this
+  rw [e1, e2]
+  exact scale_parts_sum s (le_of_lt hs) n limit hsn v
+
 end Grid
